@@ -22,3 +22,54 @@ def do_misread(o):
 def do_lock_form(o):
     _, _lock = o.x
     return _lock
+
+
+# one source line per augmented-assignment operator (the library classifies the statement from its source text)
+def aug_sub(o, d):
+    o.x -= d
+
+
+def aug_mul(o, d):
+    o.x *= d
+
+
+def aug_truediv(o, d):
+    o.x /= d
+
+
+def aug_floordiv(o, d):
+    o.x //= d
+
+
+def aug_mod(o, d):
+    o.x %= d
+
+
+def aug_pow(o, d):
+    o.x **= d
+
+
+def aug_rshift(o, d):
+    o.x >>= d
+
+
+def aug_lshift(o, d):
+    o.x <<= d
+
+
+def aug_and(o, d):
+    o.x &= d
+
+
+def aug_xor(o, d):
+    o.x ^= d
+
+
+def aug_or(o, d):
+    o.x |= d
+
+
+import operator as _op
+AUG_OPS = {"+=": (do_aug, _op.add), "-=": (aug_sub, _op.sub), "*=": (aug_mul, _op.mul), "/=": (aug_truediv, _op.truediv),
+           "//=": (aug_floordiv, _op.floordiv), "%=": (aug_mod, _op.mod), "**=": (aug_pow, _op.pow), ">>=": (aug_rshift, _op.rshift),
+           "<<=": (aug_lshift, _op.lshift), "&=": (aug_and, _op.and_), "^=": (aug_xor, _op.xor), "|=": (aug_or, _op.or_)}
